@@ -75,6 +75,35 @@ int vg_offset;      /* ghost: the value copy_from_history obtained from read_off
 static size_t vg_p0, vg_l0;
 static unsigned vg_n0;
 
+/* C01, per-block table readers (groups <unit>.read_{temp,code,offset}_table.func and <unit>.read_skip_count.tbl,
+   -DVG_TBL_FUNC).  Skolem-index dataflow: vg_tX is ONE arbitrary index of the code-length array, never assigned by
+   woven text; the ghosts below follow the field / command that the FORMAT makes responsible for that index.
+   Woven ghost statements (contracts/lib/lh_new_decoder.c.spec, all under #ifdef VG_TBL_FUNC) assign only these. */
+int vg_tX;                          /* Skolem index, 0 <= vg_tX < size of the reader's code_lengths[] */
+int vg_t_nfield, vg_t_symfield;     /* count field as read; single-symbol field as read (count == 0 form) */
+int vg_t_next;                      /* format cursor: the index the next length field / command starts at (tiling) */
+int vg_t_nf, vg_t_nskip, vg_t_skip_at;  /* temp table: length fields read so far; skip fields read; #length fields before the skip field */
+int vg_t_kind, vg_t_val;            /* temp/offset table, cell vg_tX: 1 = a length field with value vg_t_val, 0 = zero inserted by the skip field, -1 = not covered */
+int vg_t_cur;                       /* code table: temp-tree symbol of the command being decoded */
+int vg_t_sym, vg_t_start, vg_t_span, vg_t_cls, vg_t_bits;  /* code table, the command covering vg_tX: symbol, first index, span as given by
+                                       the format (before the cut at n), class read_skip_count was called with, its extra bits */
+int vg_t_failed, vg_t_over;         /* a field read reported end of input; a field/command was read although the cursor had reached n */
+int vg_t_bt_calls, vg_t_bt_n, vg_t_bt_len;   /* build_tree: number of calls, the count handed over, cell vg_tX of the array handed over */
+int vg_skip_cls, vg_skip_ret, vg_skip_bits;  /* read_skip_count: class argument, return value, what read_bits returned for the extra bits */
+/* effective table size: the count field clamped to the array size */
+#define VG_T_N(MAX) (vg_t_nfield > (int) (MAX) ? (int) (MAX) : vg_t_nfield)
+/* temp/offset table: what the format puts into cell vg_tX (L = that cell); values >= 256 need >= 249 one-bits of unary
+   extension and denote no code length in any LHA stream: not pinned */
+#define VG_T_FIELD_OK(L) (vg_t_kind == 1 ? (vg_t_val >= 0 && (vg_t_val < 256 ==> (int) (L) == vg_t_val)) : (vg_t_kind == 0 && (L) == 0))
+/* code table: zero-run length of class c with extra bits b: 1 | 3 + 4 bits | 20 + 9 bits */
+#define VG_T_RUN(c, b) ((c) == 0 ? 1 : (c) == 1 ? 3 + (b) : 20 + (b))
+#define VG_T_BITS_OK(c, b) ((b) >= 0 && (b) < ((c) == 0 ? 1 : (c) == 1 ? 16 : 512))
+/* code table: cell vg_tX (L) is what the covering command denotes: symbols 0..2 = zero run (class == symbol, run length
+   per class), symbol c >= 3 = one cell holding the length c - 2; vg_tX lies inside the command's span */
+#define VG_T_CMD_OK(L) (vg_t_sym >= 0 && vg_t_start >= 0 && vg_t_start <= vg_tX && vg_tX < vg_t_start + vg_t_span && \
+	(vg_t_sym <= 2 ? ((L) == 0 && vg_t_cls == vg_t_sym && VG_T_BITS_OK(vg_t_sym, vg_t_bits) && vg_t_span == VG_T_RUN(vg_t_sym, vg_t_bits)) \
+	               : ((int) (L) == vg_t_sym - 2 && vg_t_span == 1 && vg_t_start == vg_tX)))
+
 #ifdef VG_REDUCED_RING
 /* Reduced-ring instantiation (DESIGN.md section 2 item 7): the template with this method's real OFFSET_BITS /
    NUM_CODES (/ LHARK) but HISTORY_BITS lowered to 14, used ONLY for functions that never index the ring
@@ -168,6 +197,27 @@ void h_read_temp_table(void) { LHANewDecoder *d; vg_havoc(); read_temp_table(d);
 void h_read_skip_count(void) { LHANewDecoder *d; int r; vg_havoc(); read_skip_count(d, r); VG_CANARY("read_skip_count"); }
 void h_read_code_table(void) { LHANewDecoder *d; vg_havoc(); read_code_table(d); VG_CANARY("read_code_table"); }
 void h_read_offset_table(void) { LHANewDecoder *d; vg_havoc(); read_offset_table(d); VG_CANARY("read_offset_table"); }
+#ifdef VG_TBL_FUNC
+/* entries of the C01 table-reader groups: same shape as the memory-safety entries; the Skolem index ranges over the
+   reader's code_lengths[] array (VG_BT selects the table, VG_BT_NCODES is that array's size); the other ghosts start
+   arbitrary (the woven @entry ghost statements initialise them) */
+static void vg_tbl_havoc(void)
+{
+	vg_havoc();
+	vg_tX = nondet_int();
+	__CPROVER_assume(vg_tX >= 0 && vg_tX < (int) VG_BT_NCODES);
+	vg_t_nfield = nondet_int(); vg_t_symfield = nondet_int(); vg_t_next = nondet_int(); vg_t_nf = nondet_int();
+	vg_t_nskip = nondet_int(); vg_t_skip_at = nondet_int(); vg_t_kind = nondet_int(); vg_t_val = nondet_int();
+	vg_t_cur = nondet_int(); vg_t_sym = nondet_int(); vg_t_start = nondet_int(); vg_t_span = nondet_int();
+	vg_t_cls = nondet_int(); vg_t_bits = nondet_int(); vg_t_failed = nondet_int(); vg_t_over = nondet_int();
+	vg_t_bt_calls = nondet_int(); vg_t_bt_n = nondet_int(); vg_t_bt_len = nondet_int();
+	vg_skip_cls = nondet_int(); vg_skip_ret = nondet_int(); vg_skip_bits = nondet_int();
+}
+void h_read_temp_table_func(void) { LHANewDecoder *d; vg_tbl_havoc(); read_temp_table(d); VG_CANARY("read_temp_table_func"); }
+void h_read_code_table_func(void) { LHANewDecoder *d; vg_tbl_havoc(); read_code_table(d); VG_CANARY("read_code_table_func"); }
+void h_read_offset_table_func(void) { LHANewDecoder *d; vg_tbl_havoc(); read_offset_table(d); VG_CANARY("read_offset_table_func"); }
+void h_read_skip_count_tbl(void) { LHANewDecoder *d; int r; vg_tbl_havoc(); read_skip_count(d, r); VG_CANARY("read_skip_count_tbl"); }
+#endif
 void h_start_new_block(void) { LHANewDecoder *d; vg_havoc(); start_new_block(d); VG_CANARY("start_new_block"); }
 void h_read_code(void) { LHANewDecoder *d; vg_havoc(); read_code(d); VG_CANARY("read_code"); }
 void h_read_offset_code(void) { LHANewDecoder *d; vg_havoc(); read_offset_code(d); VG_CANARY("read_offset_code"); }
